@@ -40,6 +40,17 @@ struct FnSpec {
     /// keep `&self` -> `&mut self` (R10)
     #[serde(default)]
     self_mut: bool,
+    /// R25: fragments moved verbatim into generated helper fns (verified, with their own contract)
+    #[serde(default)]
+    outlines: Vec<Outline>,
+}
+
+#[derive(Deserialize, Clone)]
+struct Outline {
+    name: String,
+    header: String,
+    original: String,
+    call: String,
 }
 
 #[derive(Deserialize, Clone)]
@@ -91,6 +102,9 @@ struct UnitReq {
     /// also emit a vacuity twin (`<name>__vxvac` with an extra `ensures false`)
     #[serde(default)]
     vac: bool,
+    /// R24: emit the selected associated fn(s) as free functions (they use no impl generics)
+    #[serde(default)]
+    hoist: bool,
 }
 
 #[derive(Deserialize)]
@@ -270,6 +284,7 @@ struct Rewriter<'a> {
     fn_marker: String,
     uid: String,
     brk_counter: usize,
+    synth: Vec<(String, String)>,
 }
 
 fn line_of<T: syn::spanned::Spanned>(t: &T) -> usize {
@@ -576,6 +591,35 @@ impl<'a> VisitMut for Rewriter<'a> {
                 }
             }
             Expr::MethodCall(mc) => {
+                // R23: `Enum::Variant` passed as a function value -> the closure it denotes
+                let nsyn = self.synth.len();
+                let uid = self.uid.clone();
+                let mut new_synth: Vec<(String, String)> = vec![];
+                for (ai, a) in mc.args.iter_mut().enumerate() {
+                    if let Expr::Path(p) = a {
+                        let segs: Vec<String> = p.path.segments.iter().map(|s| s.ident.to_string()).collect();
+                        if segs.len() >= 2 && p.qself.is_none()
+                            && segs[segs.len() - 1].chars().next().map_or(false, |c| c.is_uppercase())
+                            && segs[segs.len() - 2].chars().next().map_or(false, |c| c.is_uppercase())
+                        {
+                            let ctor = p.path.clone();
+                            let mut ety = p.path.clone();
+                            ety.segments.pop();
+                            let last = ety.segments.pop().unwrap().into_value();
+                            ety.segments.push(last);
+                            let marker = format!("__vxclos_{}_s{}", uid, nsyn + new_synth.len() + ai);
+                            let id = syn::Ident::new(&marker, proc_macro2::Span::call_site());
+                            let r: Expr = parse_quote!(|vx_x| -> VxRet<vx_r, #ety> { #id!{}; #ctor(vx_x) });
+                            let ctor_s = norm(&ctor.to_token_stream());
+                            new_synth.push((marker, format!("ensures vx_r == {}(vx_x),\n", ctor_s)));
+                            *a = r;
+                        }
+                    }
+                }
+                for (m, t) in new_synth {
+                    self.log.push(RewriteLog { rule: "R23".into(), line, detail: format!("constructor used as function value -> closure ({})", t.trim()) });
+                    self.synth.push((m, t));
+                }
                 // R5: x.parse::<T>() -> vx_parse_T(x)
                 if mc.method == "parse" && mc.args.is_empty() {
                     if let Some(tf) = &mc.turbofish {
@@ -760,6 +804,23 @@ fn parse_closure_header(h: &str) -> Result<(Vec<syn::Pat>, String, syn::Type), S
     Ok((c.inputs.into_iter().collect(), rname, rty))
 }
 
+struct Outliner {
+    target: String,
+    call: Expr,
+    found: Option<Expr>,
+}
+impl VisitMut for Outliner {
+    fn visit_item_mut(&mut self, _i: &mut Item) {}
+    fn visit_expr_mut(&mut self, e: &mut Expr) {
+        if self.found.is_none() && norm(&e.to_token_stream()) == self.target {
+            let orig = std::mem::replace(e, self.call.clone());
+            self.found = Some(orig);
+            return;
+        }
+        visit_mut::visit_expr_mut(self, e);
+    }
+}
+
 struct Ctx<'a> {
     renames: Vec<(Vec<String>, Vec<String>)>,
     macro_map: &'a BTreeMap<String, String>,
@@ -853,6 +914,7 @@ fn process_fn(
             fn_marker: String::new(),
             uid: uid.to_string(),
             brk_counter: 0,
+            synth: vec![],
         };
         let _ = (&rw.fn_marker, rw.brk_counter);
         rw.visit_signature_mut(sig);
@@ -868,6 +930,9 @@ fn process_fn(
             }
         }
         out.rewrites.extend(rw.log);
+        for (m, t) in rw.synth {
+            subs.push(("loop".into(), m, t));
+        }
         for e in rw.errors {
             out.error = Some(match out.error.take() { Some(x) => format!("{}; {}", x, e), None => e });
         }
@@ -1322,6 +1387,7 @@ fn process_unit(job: &Job, ctx: &Ctx, u: &UnitReq, uidx: usize, vac: bool) -> Un
                     fn_marker: String::new(),
                     uid: String::new(),
                     brk_counter: 0,
+            synth: vec![],
                 };
                 match &mut it {
                     Item::Struct(s) => { rw.visit_fields_mut(&mut s.fields); rw.visit_generics_mut(&mut s.generics); }
@@ -1406,6 +1472,7 @@ fn process_unit(job: &Job, ctx: &Ctx, u: &UnitReq, uidx: usize, vac: bool) -> Un
             };
             im.attrs.retain(|a| !is_doc_or_dropped_attr(a));
             let mut kept_items: Vec<ImplItem> = vec![];
+            let mut extra_fns: Vec<syn::ItemFn> = vec![];
             let mut fidx = 0usize;
             let mut first_line = usize::MAX;
             let mut last_line = 0usize;
@@ -1435,6 +1502,35 @@ fn process_unit(job: &Job, ctx: &Ctx, u: &UnitReq, uidx: usize, vac: bool) -> Un
                         if im.trait_.is_none() && !matches!(f.vis, syn::Visibility::Public(_)) {
                             f.vis = parse_quote!(pub);
                             out.rewrites.push(RewriteLog { rule: "R21".into(), line: line_of(&f.sig), detail: "visibility widened to pub".into() });
+                        }
+                        for (oi, ol) in spec.outlines.iter().enumerate() {
+                            let call: Expr = match syn::parse_str(&ol.call) {
+                                Ok(c) => c,
+                                Err(e) => { out.error = Some(format!("outline {} call unparsable: {}", ol.name, e)); continue; }
+                            };
+                            let mut o = Outliner { target: norm_str(&ol.original).unwrap_or_default(), call, found: None };
+                            o.visit_block_mut(&mut f.block);
+                            match o.found {
+                                None => {
+                                    let e = format!("lost-anchor: outlined fragment {} not found in {}", ol.name, name);
+                                    out.error = Some(match out.error.take() { Some(x) => format!("{}; {}", x, e), None => e });
+                                }
+                                Some(orig) => {
+                                    out.rewrites.push(RewriteLog { rule: "R25".into(), line: line_of(&orig), detail: format!("fragment outlined verbatim into helper fn {} (verified against its own contract)", ol.name) });
+                                    if !vac {
+                                        match syn::parse_str::<syn::ItemFn>(&format!("pub {} {{ }}", ol.header)) {
+                                            Ok(mut hf) => {
+                                                hf.block.stmts.push(Stmt::Expr(orig, None));
+                                                let hspec = u.fns.get(&ol.name).unwrap_or(&default_spec);
+                                                let huid = format!("u{}f{}o{}", uidx, fidx, oi);
+                                                process_fn(ctx, u, &huid, &mut hf.attrs, &mut hf.sig, &mut hf.block, hspec, &mut out, &mut subs);
+                                                extra_fns.push(hf);
+                                            }
+                                            Err(e) => { out.error = Some(format!("outline {} header unparsable: {}", ol.name, e)); }
+                                        }
+                                    }
+                                }
+                            }
                         }
                         process_fn(ctx, u, &uid, &mut f.attrs, &mut f.sig, &mut f.block, spec, &mut out, &mut subs);
                         kept_items.push(ImplItem::Fn(f));
@@ -1479,6 +1575,7 @@ fn process_unit(job: &Job, ctx: &Ctx, u: &UnitReq, uidx: usize, vac: bool) -> Un
                 fn_marker: String::new(),
                 uid: String::new(),
                 brk_counter: 0,
+            synth: vec![],
             };
             rw.visit_generics_mut(&mut im.generics);
             rw.visit_type_mut(&mut im.self_ty);
@@ -1491,7 +1588,26 @@ fn process_unit(job: &Job, ctx: &Ctx, u: &UnitReq, uidx: usize, vac: bool) -> Un
                 }
             }
             out.rewrites.extend(rw.log);
-            text = im.to_token_stream().to_string();
+            let mut t = String::new();
+            if u.hoist {
+                for ii in im.items.iter() {
+                    if let ImplItem::Fn(f) = ii {
+                        let attrs = &f.attrs;
+                        let sig = &f.sig;
+                        let block = &f.block;
+                        t.push_str(&quote!(#(#attrs)* pub #sig #block).to_string());
+                        t.push('\n');
+                        out.rewrites.push(RewriteLog { rule: "R24".into(), line: line_of(&f.sig), detail: format!("associated fn {} (uses no impl generics) emitted as a free fn", f.sig.ident) });
+                    }
+                }
+            } else {
+                t = im.to_token_stream().to_string();
+            }
+            for hf in extra_fns {
+                t.push('\n');
+                t.push_str(&hf.to_token_stream().to_string());
+            }
+            text = t;
         }
         other => {
             out.error = Some(format!("unknown unit kind {}", other));
